@@ -17,7 +17,7 @@ fn run<'h>(doc: &[u8], enc: &'static encoding_rs::Encoding, s: Settings<'h, '_>)
 }
 
 fn main() {
-    // P1: read accessors decode with BOM sniffing (base/bytes.rs:118 `encoding.decode(..)`).
+    // P1: read accessors decode with BOM sniffing (base/bytes.rs:114 `encoding.decode(..)`).
     let seen = Rc::new(RefCell::new(vec![]));
     let s2 = seen.clone();
     let doc = b"<!--\xFF\xFEab--><a title=\"\xEF\xBB\xBF\xE9\">";
